@@ -1,5 +1,5 @@
-(* The lossless relations parser as it is in /repo BEFORE the proposed fix
-   proposed_fixes/C10-epoch-and-space-in-version.patch: inside "( op version )" the version must
+(* The lossless relations parser as it was in /repo BEFORE the fixes 0eb8794 / 43dd02f
+   (proposed_fixes/C10-epoch-and-space-in-version.patch): inside "( op version )" the version must
    be ONE IDENT token and ")" must follow it immediately.  Everything else is RelParse.v.
    Kept so that the defects stay stated and machine-checked (props/C10.v: C10_prefix_*_refuted) and
    so that the unchanged tree can still be compared with a faithful model (stream rel-acc-pre). *)
@@ -121,4 +121,11 @@ Definition relation_version_pre (r : rtree) : res (option (vop * str)) :=
         end
     | _, _ => Ok None
     end
+  end.
+
+(* Relation::architectures() before /repo 541b0f5: the IDENT tokens only, a '!' is dropped *)
+Definition relation_architectures_pre (r : rtree) : option (list str) :=
+  match first_node_of_kind ARCHITECTURES (children r) with
+  | Some a => Some (tok_texts_of_kind IDENT (children a))
+  | None => None
   end.
